@@ -534,6 +534,13 @@ func (ex *Exec) evalCall(e *Expr, env *Env) Val {
 				return ex.boolV(ts.And(ts.Lt(old.na, x.Ref, true), ts.Le(x.Ref, ex.st.na, true)))
 			case SliceV:
 				return ex.boolV(ts.Or(ts.Eq(x.Base, ts.Int(0)), ts.And(ts.Lt(old.na, x.Base, true), ts.Le(x.Base, ex.st.na, true))))
+			case Scalar:
+				// a map handle
+				if x.T != nil && x.Typ != nil {
+					if _, isMap := under(x.Typ).(*types.Map); isMap {
+						return ex.boolV(ts.And(ts.Lt(old.na, x.T, true), ts.Le(x.T, ex.st.na, true)))
+					}
+				}
 			}
 			unsup("contract: fresh of %T", v)
 		case "unchanged":
